@@ -91,11 +91,13 @@ pub fn run_c06<C: NatCtx>(v: &mut Env<C>) {
         let lim_cp = if quick { 7u64 } else { 11 };
         if p <= big(lim_s) {
             v.h.exhaustive_notes.push(format!("{}: the whole Schnorr proof space: all (g, y, t, c, s) x 2 labels", v.tok));
+            // on the smallest group also non-canonical (unreduced) exponents c, s in [q, 2q)
+            let xmax = if p == big(7) { 2 * qn } else { qn };
             for gb in &mem {
                 for y in &mem {
                     for t in &mem {
-                        for c in 0..qn {
-                            for s in 0..qn {
+                        for c in 0..xmax {
+                            for s in 0..xmax {
                                 sch_verify(v, &Some(gb.clone()), y, t, &big(c), &big(s), b"");
                                 if gb == &g {
                                     sch_verify(v, &None, y, t, &big(c), &big(s), b"x");
@@ -159,6 +161,10 @@ pub fn run_c06<C: NatCtx>(v: &mut Env<C>) {
         let s = (&r + &c * &x) % &q;
         let acc = sch_verify(v, &base, &y, &t, &c, &s, &label);
         v.h.check(acc, || format!("honest Schnorr transcript rejected on {}", tok));
+        // non-canonical challenge: c + q is a different integer, never the hash
+        let acc = sch_verify(v, &base, &y, &t, &(&c + &q), &s, &label);
+        v.h.check(!acc, || format!("Schnorr proof with challenge + q accepted on {}", tok));
+        sch_verify(v, &base, &y, &t, &c, &(&s + &q), &label);
         let mut l2 = label.clone();
         l2.push(7);
         let changes: Vec<(&str, Option<BigUint>, BigUint, BigUint, BigUint, BigUint, Vec<u8>)> = vec![
@@ -195,6 +201,18 @@ pub fn run_c06<C: NatCtx>(v: &mut Env<C>) {
         let s = (&r + &c * &x) % &q;
         let acc = cp_verify(v, &base, &g2, &y1, &y2, &t1, &t2, &c, &s, &label);
         v.h.check(acc, || format!("honest CP transcript rejected on {}", tok));
+        let acc = cp_verify(v, &base, &g2, &y1, &y2, &t1, &t2, &(&c + &q), &s, &label);
+        v.h.check(!acc, || format!("CP proof with challenge + q accepted on {}", tok));
+        // cancelling errors: equation 1 off by a factor u, equation 2 off by 1/u, hash-consistent
+        {
+            let u = v.rnd_member();
+            let uinv = u.modpow(&(&q - 1u32), &p);
+            let (y1c, y2c) = ((&y1 * &u) % &p, (&y2 * &uinv) % &p);
+            let cc = C::x_val(&zv::cp_challenge(&zkp, &v.e(&bv), &v.e(&g2), &v.e(&y1c), &v.e(&y2c), &v.e(&t1), &v.e(&t2), None, &label).unwrap());
+            let sc = (&r + &cc * &x) % &q;
+            let acc = cp_verify(v, &base, &g2, &y1c, &y2c, &t1, &t2, &cc, &sc, &label);
+            v.h.check(!(acc && strict && u != big(1)), || format!("CP proof whose two equations fail by cancelling factors accepted on {}", tok));
+        }
         let acc = cp_verify(v, &base, &g2, &y1, &y2, &t1, &((&t2 * &g) % &p), &c, &s, &label);
         v.h.check(!(acc && strict), || format!("CP proof with changed commitment2 accepted on {}", tok));
         let acc = cp_verify(v, &base, &((&g2 * &g) % &p), &y1, &y2, &t1, &t2, &c, &s, &label);
@@ -225,6 +243,33 @@ pub fn run_c06<C: NatCtx>(v: &mut Env<C>) {
             }
         }
     }
+}
+
+/// verify_decryption on arbitrary values against the reference predicate
+#[allow(clippy::too_many_arguments)]
+pub fn dverify_case<C: NatCtx>(v: &mut Env<C>, pk: &BigUint, f: &BigUint, mhr: &BigUint, gr: &BigUint, t1: &BigUint, t2: &BigUint, c: &BigUint, s: &BigUint, label: &[u8]) -> bool {
+    let ctx = v.ctx.clone();
+    let zkp = Zkp::new(&ctx);
+    let pf = mk_cp::<C>(t1, t2, c, s);
+    let (pke, fe, mhre, gre) = (v.e(pk), v.e(f), v.e(mhr), v.e(gr));
+    let mut got = false;
+    let out = v.case("dverify", vec![n(pk), n(f), n(mhr), n(gr), vc(t1, t2, c, s), b(label)], || {
+        got = zkp.verify_decryption(&pke, &fe, &mhre, &gre, &pf, label).unwrap_or(false);
+        Out::Ok(Val::Bool(got))
+    });
+    let (p, g) = (v.p.clone(), v.g.clone());
+    let tok = v.tok.clone();
+    if out == Out::Panic {
+        v.h.check(false, || format!("verify_decryption panicked on {}", tok));
+        return false;
+    }
+    let h = zv::cp_challenge(&zkp, &v.e(&g), &gre, &pke, &fe, &v.e(t1), &v.e(t2), Some(&mhre), label).map(|x| C::x_val(&x));
+    let reference = match h {
+        Ok(h) => h == *c && g.modpow(s, &p) == (t1 * pk.modpow(c, &p)) % &p && gr.modpow(s, &p) == (t2 * f.modpow(c, &p)) % &p,
+        Err(_) => false,
+    };
+    v.h.check(got == reference, || format!("verify_decryption decision {} differs from the reference predicate {} on {} pk={:x} f={:x} mhr={:x} gr={:x} t1={:x} t2={:x} c={:x} s={:x}", got, reference, tok, pk, f, mhr, gr, t1, t2, c, s));
+    got
 }
 
 pub fn run_c07<C: NatCtx>(v: &mut Env<C>) {
@@ -260,9 +305,48 @@ pub fn run_c07<C: NatCtx>(v: &mut Env<C>) {
             }
         }
     }
+    if v.small && p <= big(if quick { 7 } else { 11 }) {
+        // the whole space of verify_decryption: all (pk, factor, gr, t1, t2, c, s), mhr in 2 values
+        let mem = subgroup(&p, &q);
+        let qn = q.to_u64_digits()[0];
+        v.h.exhaustive_notes.push(format!("{}: the whole verify_decryption space: all (pk, factor, gr, t1, t2, c, s) x 2 mhr", v.tok));
+        for pkv in &mem {
+            for f in &mem {
+                for gr in &mem {
+                    for t1 in &mem {
+                        for t2 in &mem {
+                            for c in 0..qn {
+                                for s in 0..qn {
+                                    for mhr in [&mem[0], &mem[mem.len() - 1]] {
+                                        dverify_case(v, pkv, f, mhr, gr, t1, t2, &big(c), &big(s), b"d");
+                                    }
+                                }
+                            }
+                        }
+                    }
+                }
+            }
+        }
+    }
     let reps = if v.small { 6 } else if quick { 2 } else { 10 };
     for i in 0..reps {
         let label = v.label(i);
+        // a key holder releases a WRONG factor with a proof whose two equation errors cancel
+        {
+            let (x, yy, r0) = (v.rnd_exp(), v.rnd_exp(), v.rnd_exp());
+            let pkx = g.modpow(&x, &p);
+            let gr = v.rnd_member();
+            let mhr = v.rnd_member();
+            // equation 1 (base g, public pk) is off by g^(x-yy)... choose factor so that errors cancel in a product check
+            let u = (pkx.clone() * g.modpow(&((&q - &yy) % &q), &p)) % &p; // pk / g^yy
+            let f_wrong = (gr.modpow(&yy, &p) * &u) % &p; // gr^yy * u  (true factor is gr^x)
+            let (t1, t2) = (g.modpow(&r0, &p), gr.modpow(&r0, &p));
+            let c = C::x_val(&zv::cp_challenge(&zkp, &v.e(&g), &v.e(&gr), &v.e(&pkx), &v.e(&f_wrong), &v.e(&t1), &v.e(&t2), Some(&v.e(&mhr)), &label).unwrap());
+            let s = (&r0 + &c * &yy) % &q;
+            let acc = dverify_case(v, &pkx, &f_wrong, &mhr, &gr, &t1, &t2, &c, &s, &label);
+            let truef = gr.modpow(&x, &p);
+            v.h.check(!(acc && strict && f_wrong != truef), || format!("a wrong decryption factor with cancelling equation errors was accepted on {}", tok));
+        }
         let sk = if i == 0 { big(0) } else if i == 1 { &q - 1u32 } else { v.rnd_exp() };
         let key = PrivateKey::from(&v.x(&sk), &ctx);
         let pkv = C::e_val(key.pk_element());
